@@ -238,6 +238,14 @@ impl Ctx {
                         Sigs { commit: g.commit, htlc: g.htlc[..g.htlc.len() - 1].to_vec() },
                     );
                 }
+                // "replay": the counterparty's VALID signatures for the same content at the previous
+                // commitment number (they verify for n - 1, not for the transaction rebuilt for n)
+                if n >= 1 {
+                    if let Some(prev) = self.sigs.get(&(n - 1, name.to_string(), "good".to_string())) {
+                        let prev = Sigs { commit: prev.commit, htlc: prev.htlc.clone() };
+                        self.sigs.insert((n, name.to_string(), "replay".into()), prev);
+                    }
+                }
             }
         }
         self.fx
@@ -622,6 +630,10 @@ pub fn restart_view(ctx: &Ctx) -> (Value, Option<Snap>) {
                 } else {
                     diff.push("estate".into());
                 }
+            }
+            // ... and through the Debug form, which does not depend on the serde attributes the store uses
+            if diff.is_empty() && format!("{:?}", a.estate) != format!("{:?}", b.estate) {
+                diff.push("estate.debug".into());
             }
             let na = node_state_json(&ctx.fx.node.get_state(), ctx.fx.network);
             let nb = node_state_json(&fx2.node.get_state(), fx2.network);
